@@ -30,11 +30,17 @@ ASSUMPTIONS = [
     "DataIndexDirError/UNKNOWN cannot arise and `with_unknown` is left out of the proved core",
     "roots = [()] (the default) and the default callback",
     "entry.key equals the key the entry is stored under",
-    "Meta equality is attrs equality over the eq=True fields with values that are reflexive under == "
-    "(no NaN mtime); meta_cmp_key is a pure function of the Meta",
-    "C08_refines / C08_no_hiding for the hash_only shortcut assume HashConsistent (equal directory hashes "
-    "have hash-equal sub-tries: true when the hash is a collision-free digest of the children)",
+    "Meta / HashInfo equality is attrs equality over the eq=True fields (generated meta_eqb / hashinfo_eqb) with "
+    "values that are reflexive under == (no NaN mtime); meta_cmp_key is a pure function of the Meta",
+    "C08_refines / C08_keys_once / C08_exact / C08_no_hiding assume well-formed indexes (every strict prefix of a "
+    "valued key is value-less or a directory entry) and, where the hash_only shortcut can fire, HashConsistent "
+    "(equal directory hashes have hash-equal sub-tries: true when the hash is a collision-free digest of the children)",
+    "the theorems about the descent are for shallow=False; shallow=True is covered by C08_refl, C08_range, the "
+    "correspondence and the oracle (keys not below a hashed entry equal the flat reference) only",
+    "C08_swap is proved for _diff (any indexes); its composition with rename detection is checked by the oracle only",
     "set iteration order (old_items.keys() | new_items.keys()) is unobservable: outputs are compared as multisets",
+    "the translator (translator/units.py units `types`, `idiff`) is trusted as far as the exhaustive decider "
+    "correspondence (25 x 25 entries x 16 flag sets against the real functions) does not exercise it",
 ]
 
 IMPORTS = "From Coq Require Import NArith List.\nFrom DvcData Require Import Base.PyBase Gen.PyTypes Gen.IDiff Model.Trie Model.IndexDiff."
@@ -380,7 +386,7 @@ def oracle(old_entries, new_entries, code, res):
     keys = [change_key(c) for c in plain]
     dup = [k for k, c in collections.Counter(keys).items() if c > 1]
     if dup:
-        problems.append(("C08:key-reported-twice", f"keys reported more than once: {dup}"))
+        problems.append(("C08:key-reported-twice", f"keys reported more than once: {sorted(dup, key=repr)}"))
 
     # exactness against the flat reference
     got = collections.Counter((c[0], c[1] and c[1]["key"], c[2] and c[2]["key"]) for c in plain)
@@ -399,7 +405,7 @@ def oracle(old_entries, new_entries, code, res):
                 sig = "C08:flat-mismatch:key-extra"
             else:
                 sig = "C08:flat-mismatch:wrong-classification"
-            problems.append((sig, f"flat key-by-key reference differs: missing {sorted(missing)} extra {sorted(extra)}"))
+            problems.append((sig, f"flat key-by-key reference differs: missing {sorted(missing, key=repr)} extra {sorted(extra, key=repr)}"))
     else:
         # shallow: keys outside hashed entries are reported exactly as the flat reference says
         top_got = collections.Counter(x for x in got.elements() if not below_hashed(x[1] if x[1] is not None else x[2], o, n))
@@ -407,7 +413,7 @@ def oracle(old_entries, new_entries, code, res):
         if top_got != top_ref:
             problems.append(("C08:shallow-top-level-mismatch",
                              f"keys not below a hashed entry differ from the flat reference: "
-                             f"missing {sorted(top_ref - top_got)} extra {sorted(top_got - top_ref)}"))
+                             f"missing {sorted(top_ref - top_got, key=repr)} extra {sorted(top_got - top_ref, key=repr)}"))
 
     # self diff shows no change
     # (checked by the dedicated refl cases: old == new)
@@ -451,7 +457,7 @@ def oracle(old_entries, new_entries, code, res):
         lh = {c[2]["hash"] for c in ra if truthy(c[2]["hash"])}
         dh = {c[1]["hash"] for c in rd if truthy(c[1]["hash"])}
         if lh & dh:
-            problems.append(("C08:rename-not-maximal", f"unpaired addition and deletion share hash {sorted(lh & dh)}"))
+            problems.append(("C08:rename-not-maximal", f"unpaired addition and deletion share hash {sorted(lh & dh, key=repr)}"))
     elif any(c[0] == RENAME for c in changes):
         problems.append(("C08:rename-unrequested", "rename reported without with_renames"))
     return problems
